@@ -132,7 +132,7 @@ func (w *pkgWorld) checkRegistry(n *node, when string) {
 }
 
 func runPackages(c *kernel.Choices, p kernel.Params) *kernel.Result {
-	base := &world{c: c, r: kernel.NewResult(), p: p, prop: "C12", emptyKeys: map[string]bool{}}
+	base := &world{c: c, r: kernel.NewResult(), p: p, prop: "C12", emptyKeys: map[string]bool{}, dynPkgs: map[string]bool{}, knownSeen: map[string]bool{}}
 	w := &pkgWorld{world: base, reg: map[string]*regEntry{}, pCount: map[string]int{}}
 	w.img = baseImage(3_000_000_000)
 	w.acts = newActors()
@@ -158,6 +158,8 @@ func runPackages(c *kernel.Choices, p kernel.Params) *kernel.Result {
 		}
 	}
 	w.reg[boxPath] = &regEntry{files: boxFiles, creator: w.acts["alice"].addr.String(), height: 0}
+	w.pCount[libPath] = -1 // registered below without a Counter variable
+	delete(w.pCount, libPath)
 
 	nblocks := 4 + c.Intn(8)
 	var names []string
